@@ -6,6 +6,7 @@ interpreters (through `select_rendering_items`), compared with the Lean model (c
 fractions.  Every documented entry point is exercised in-process.  Search: the property text as a
 predicate on the real code's output only.
 """
+import math
 import os
 import re
 import shutil
@@ -303,9 +304,13 @@ def real_fix(cases):
 # generators
 
 
-def rnd(x, k):
-    """Round an exact time to k decimals (what a metadata writer with k fractional digits does)."""
-    return None if x is None else F(round(x * 10**k), 10**k)
+def rnd(x, k, mode="n"):
+    """Write an exact time with k decimals: nearest (half-even), truncated ("f") or rounded up ("c")."""
+    if x is None:
+        return None
+    y = x * 10**k
+    n = round(y) if mode == "n" else (math.floor(y) if mode == "f" else math.ceil(y))
+    return F(n, 10**k)
 
 
 _DENS = [3, 7, 9, 11, 13, 48000, 44100, 30000, 1001, 25, 24, 60, 1000, 10**5, 10**6, 7919]
@@ -318,28 +323,37 @@ def _ratio(rng, lo, hi):
     return F(rng.randint(a, b), den)
 
 
-def gen_timeline(rng, k, n, typ, tiny=False):
-    """Exact valid timeline (contiguous, il <= duration, blocks inside the object), then rounded to k decimals.
-    tiny=True allows exact durations below the rounding unit (rounding may then collapse blocks)."""
+def gen_timeline(rng, k, n, typ, tiny=False, conv="nearest"):
+    """Exact valid timeline (contiguous, il <= duration, blocks inside the object), then written with k decimals.
+    conv: "nearest" every value rounded to nearest; "mixed" every value independently nearest / truncated /
+    rounded up (tools differ); "ilceil" mixed, plus blocks with interpolationLength == duration exactly whose
+    interpolationLength is rounded up and duration truncated, after a first block without jumpPosition.
+    tiny=True allows exact durations below what the theorems need (unit for nearest: rounding_meets_hypotheses,
+    2 units for mixed: perturbation_meets_hypotheses with delta = unit); blocks may then collapse."""
     unit = F(1, 10**k)
+    m = 1 if conv == "nearest" else 2
     t = rng.choice([F(0), F(0), F(0), _ratio(rng, 0, 2)])
     exact = []
     for i in range(n):
         mode = rng.random()
         if tiny and mode < 0.5:
-            d = unit * _ratio(rng, F(1, 50), 1)
+            d = unit * _ratio(rng, F(1, 50), m)
         elif mode < 0.35:
-            d = unit * _ratio(rng, 1, 3)  # just above the rounding unit
+            d = unit * _ratio(rng, m, m + 2)  # just above the bound
         elif mode < 0.7:
-            d = unit * _ratio(rng, 3, 400)
+            d = unit * _ratio(rng, m + 2, 400)
         else:
-            d = _ratio(rng, unit * 2, 3) + unit
-        if not tiny and d <= unit:
-            d = unit * F(3, 2)
-        jp, il = False, None
+            d = _ratio(rng, unit * 2, 3) + unit * m
+        if not tiny and d <= unit * m:
+            d = unit * (m + F(1, 2))
+        jp, il, force = False, None, None
         if typ == "O":
             j = rng.random()
-            if j < 0.25:
+            if conv == "ilceil" and i == 0 and j < 0.6:
+                pass  # first block without jumpPosition
+            elif conv == "ilceil" and j < 0.7:
+                jp, il, force = True, d, ("f", "c")  # duration truncated, interpolationLength rounded up
+            elif j < 0.25:
                 jp = True
             elif j < 0.65:
                 jp = True
@@ -347,7 +361,7 @@ def gen_timeline(rng, k, n, typ, tiny=False):
                 il = min(il, d)
             elif j < 0.7:
                 il = d * F(1, 2)  # interpolationLength present but flag off: ignored by the code
-        exact.append((t, d, jp, il))
+        exact.append((t, d, jp, il, force))
         t += d
     total = t
     objs = []
@@ -362,9 +376,18 @@ def gen_timeline(rng, k, n, typ, tiny=False):
         else:
             dur = total + rng.choice([unit * _ratio(rng, F(1, 10), 3), _ratio(rng, 0, 2)])
         objs.append((start, dur))
-    blocks = [(rnd(r, k), rnd(d, k), jp, rnd(il, k)) for r, d, jp, il in exact]
-    objs = [(rnd(s, k), rnd(d, k)) for s, d in objs]
-    return {"typ": typ, "k": k, "blocks": blocks, "objs": objs, "origin": "rounded-tiny" if tiny else "rounded"}
+    pick = (lambda: "n") if conv == "nearest" else (lambda: rng.choice("nfc"))
+    blocks = []
+    for r, d, jp, il, force in exact:
+        md, mi = force if force else (pick(), pick())
+        blocks.append((rnd(r, k, pick()), rnd(d, k, md), jp, rnd(il, k, mi)))
+    objs = [(rnd(s, k, pick()), rnd(d, k, pick())) for s, d in objs]
+    origin = "rounded" + ("" if conv == "nearest" else "-" + conv) + ("-tiny" if tiny else "")
+    return {"typ": typ, "k": k, "blocks": blocks, "objs": objs, "origin": origin, "conv": conv}
+
+
+_CONVS = ["nearest"] * 9 + ["mixed"] * 8 + ["ilceil"] * 3
+_VALID_ORIGINS = ("rounded", "rounded-mixed", "rounded-ilceil")
 
 
 def gen_untimed(rng, k):
@@ -445,7 +468,7 @@ def classify(case):
 
 
 def features(case):
-    f = ["type:" + case["typ"], "digits:%s" % case["k"], "blocks:%d" % min(len(case["blocks"]), 9),
+    f = ["type:" + case["typ"], "digits:%s" % case["k"], "rounding:%s" % case.get("conv", "n/a"), "blocks:%d" % min(len(case["blocks"]), 9),
          "objects:%d" % len(case["objs"])]
     bl = case["blocks"]
     if any(a[0] is not None and a[0] == b[0] for a, b in zip(bl[:-1], bl[1:])):
@@ -549,7 +572,8 @@ class C15(Spec):
         for t in (
             "fix_ok", "fix_rtime_unchanged", "fix_contiguous", "fix_interp_le_duration", "fix_within_object",
             "fix_accepted_by_renderer", "fix_idempotent", "fix_second_run_silent", "fix_post",
-            "rounding_meets_hypotheses", "rounding_meets_hypotheses_dec", "roundDec_mono", "roundDec_err",
+            "rounding_meets_hypotheses", "rounding_meets_hypotheses_dec", "perturbation_meets_hypotheses",
+            "roundDec_mono", "roundDec_err",
             "excluded_start_at_object_end", "excluded_negative_last_duration", "excluded_rtime_xor_duration",
             "excluded_two_untimed", "excluded_decreasing_rtimes",
         )
@@ -576,7 +600,10 @@ class C15(Spec):
     rule = (
         "a case is one audioChannelFormat with its audioObjects inside a real ADM document: exact contiguous timeline "
         "(1..n blocks, rational times with awkward denominators, durations just above / well above the rounding unit), "
-        "every time rounded half-even to k in 2..5 decimals; Objects with no/flag-only/flag+interpolationLength "
+        "every time written with k in 2..5 decimals, either all to nearest (half-even) or each value independently "
+        "nearest / truncated / rounded up (mixed conventions; exact durations then above two units), incl. the family "
+        "interpolationLength == duration exactly with the interpolationLength rounded up and the duration truncated "
+        "after a first block without jumpPosition; Objects with no/flag-only/flag+interpolationLength "
         "jumpPosition or DirectSpeakers; object start/duration present or absent; 12% share the channel between two "
         "objects; plus single untimed blocks, timelines with durations below the unit (collapsing blocks) and "
         "purpose-built excluded points. non-trivial = the first repair changed something or raised; distinct by "
@@ -630,9 +657,10 @@ class C15(Spec):
         else:
             outcome = r["status"] if r["status"] != "ok" else "repaired-then-" + ",".join(sorted(set(r["post"])))
             ctx.count("excluded-point:%s => %s" % (excl, outcome.split(":")[0]))
-            if c["origin"] == "rounded":
+            if c["origin"] in _VALID_ORIGINS:
                 # the generator builds exactly the timelines of Earverif.TimingFix.ExactValid (durations above the
-                # rounding unit): rounding_meets_hypotheses says they satisfy the hypotheses
+                # rounding unit; above two units when conventions are mixed): rounding_meets_hypotheses /
+                # perturbation_meets_hypotheses say they satisfy the hypotheses
                 ctx.disagree("rounded valid timeline falls outside the hypotheses (rounding_meets_hypotheses)",
                              enc(c), "Hyp and HypAccept", excl)
         if m is None:
@@ -664,14 +692,15 @@ class C15(Spec):
             if x < 0.10:
                 g = [gen_outside(rng, k)]
             elif x < 0.22:
-                g = [gen_timeline(rng, k, rng.randint(1, 6), rng.choice("OOD"), tiny=True)]
+                g = [gen_timeline(rng, k, rng.randint(1, 6), rng.choice("OOD"), tiny=True, conv=rng.choice(_CONVS))]
             elif x < 0.30:
                 g = [gen_untimed(rng, k)]
             elif x < 0.42:
-                g = [gen_timeline(rng, k, rng.randint(1, 8), rng.choice("OOD")) for _ in range(rng.randint(2, 4))]
+                g = [gen_timeline(rng, k, rng.randint(1, 8), rng.choice("OOD"), conv=rng.choice(_CONVS))
+                     for _ in range(rng.randint(2, 4))]
             else:
                 nb = rng.choice([1, 2, 2, 3, 3, 4, 5, 6, 8, 12, 20])
-                g = [gen_timeline(rng, k, nb, rng.choice("OOD"))]
+                g = [gen_timeline(rng, k, nb, rng.choice("OOD"), conv=rng.choice(_CONVS))]
             groups.append(g)
             n -= len(g)
         return groups
@@ -691,6 +720,11 @@ class C15(Spec):
             O([(F(0), F(1, 2), False, None), (F(1, 2), F(51, 100), True, F(51, 100))], [(F(3), F(1))]),
             # channel shared by two objects with different durations
             O([(F(0), F(1, 2), False, None), (F(1, 2), F(1, 2), True, F(1, 2))], [(None, F(99, 100)), (F(2), F(98, 100))]),
+            # mixed conventions: first block without jumpPosition; last block's interpolationLength rounded up (0.34)
+            # while its duration was truncated (0.33); only the interpolationLength pass can repair this
+            O([(F(0), F(33, 100), False, None), (F(33, 100), F(33, 100), True, F(34, 100))], [(None, None)]),
+            O([(F(0), F(33, 100), False, None), (F(33, 100), F(33, 100), True, F(34, 100)),
+               (F(67, 100), F(33, 100), False, None)], [(F(2), F(1))]),
             # untimed block with interpolation length longer than the object
             O([(None, None, True, F(2))], [(F(1), F(1))]),
             # excluded: last block starts exactly at the object's end
@@ -725,7 +759,8 @@ class C15(Spec):
         out = []
         while len(out) < count:
             k = rng.choice([2, 3, 4, 5])
-            g = [gen_timeline(rng, k, rng.randint(2, 6), rng.choice("OOD")) for _ in range(rng.randint(1, 3))]
+            g = [gen_timeline(rng, k, rng.randint(2, 6), rng.choice("OOD"), conv=rng.choice(_CONVS))
+                 for _ in range(rng.randint(1, 3))]
             if any(classify(c) is not None for c in g):
                 continue
             bl = g[0]["blocks"]
@@ -900,10 +935,10 @@ class C15(Spec):
             if x < 0.15:
                 g = [gen_untimed(rng, k)]
             elif x < 0.5:
-                g = [gen_timeline(rng, k, rng.randint(1, 5), rng.choice("OOD"), tiny=rng.random() < 0.3)
-                     for _ in range(rng.randint(1, 4))]
+                g = [gen_timeline(rng, k, rng.randint(1, 5), rng.choice("OOD"), tiny=rng.random() < 0.3,
+                                  conv=rng.choice(_CONVS)) for _ in range(rng.randint(1, 4))]
             else:
-                g = [gen_timeline(rng, k, rng.choice([1, 2, 3, 5, 9, 17, 30]), rng.choice("OOD"))]
+                g = [gen_timeline(rng, k, rng.choice([1, 2, 3, 5, 9, 17, 30]), rng.choice("OOD"), conv=rng.choice(_CONVS))]
             g = [c for c in g if classify(c) is None]
             if not g:
                 continue
